@@ -263,6 +263,7 @@ func TestC04Rapid(t *testing.T) {
 		}
 		ctx := xgen.Context(rt, doc, 4)
 		g := xgen.NewG(rt, doc)
+		g.ExtraFuncs = true
 		e, nodeSet := anyExpr(g, rt, ctx)
 		if nodeSet && rapid.IntRange(0, 9).Draw(rt, "reverse") == 0 {
 			e = &xast.Call{Name: "reverse", Args: []xast.Expr{e}} // a node-set function: Select is part of its contract
@@ -463,6 +464,7 @@ func TestC04Interleaved(t *testing.T) {
 		}
 		ctx := xgen.Context(rt, doc, 5)
 		g := xgen.NewG(rt, doc)
+		g.ExtraFuncs = true
 		var e xast.Expr
 		for tries := 0; ; tries++ {
 			var ns bool
